@@ -4,6 +4,7 @@ import (
 	"strconv"
 
 	"github.com/makiuchi-d/gozxing"
+	"github.com/makiuchi-d/gozxing/verifhook"
 )
 
 const (
@@ -161,6 +162,7 @@ func (this *upceanReader) decodeRowWithStartRange(
 			float64(startGuardRange[0]+startGuardRange[1])/2.0, float64(rowNumber)))
 	}
 
+	verifhook.Touch("oned.scratch", this, true)
 	result := this.decodeRowStringBuffer[:0]
 	endStart, result, e := this.decodeMiddle(row, startGuardRange, result)
 	if e != nil {
